@@ -5,11 +5,8 @@
    stream that replaces it.  At quiescence nothing is pending. *)
 From Coq Require Import List Bool Arith PeanoNat Lia.
 From Galene Require Import Model.Subscribe Proofs.SubscribeFrame Proofs.SubscribeInv
-  Proofs.SubscribeStep Proofs.SubscribeHeap.
+  Proofs.SubscribeStep Proofs.SubscribeHeap Proofs.SubscribeOwn.
 Import ListNotations.
-
-Definition kills (a : action) (g id : nat) : Prop :=
-  exists id' up ts r, a = APush g id' up ts r /\ ((id' = id /\ up = None) \/ r = id).
 
 Definition killer1 (w : world) (m id : nat) : Prop :=
   exists a g, In a (c_queue (w_cl w m)) /\ c_group (w_cl w m) = Some g /\ kills a g id.
@@ -19,7 +16,7 @@ Definition killer2 (w : world) (m id : nat) : Prop :=
             uo_pushed (w_up w x) = false /\ uo_owner (w_up w x) <> m /\
             (exists t, In t (w_timers w) /\ t_up t = x) /\
             (forall t, In t (w_timers w) -> t_up t = x ->
-                       In m (t_cs t) /\ c_group (w_cl w m) = Some (t_group t)).
+                       c_group (w_cl w m) = Some (t_group t)).
 
 Definition killer (w : world) (m id : nat) : Prop := killer1 w m id \/ killer2 w m id.
 
@@ -48,8 +45,7 @@ Proof.
     destruct (Hh x Hx Hrn) as [E1 [E2 E3]].
     exists x. repeat split; try congruence; try lia.
     + exists t. auto.
-    + destruct (Ht2 t0 H) as [Hold|Hnew]; [|lia]. apply (Hall t0 Hold H0).
-    + destruct (Ht2 t0 H) as [Hold|Hnew]; [|lia]. rewrite Hg. apply (Hall t0 Hold H0).
+    + intros t0 H H0. destruct (Ht2 t0 H) as [Hold|Hnew]; [|lia]. rewrite Hg. apply (Hall t0 Hold H0).
 Qed.
 
 Lemma kmono_refl : forall m w, kmono m w w.
@@ -254,8 +250,7 @@ Lemma seg_offer_tail : forall c id replace u s w g,
   uo_replace (w_up w u) = 0 -> uo_pushed (w_up w u) = false -> uo_owner (w_up w u) = c ->
   c_group (w_cl w c) = Some g ->
   (exists t, In t (w_timers w) /\ t_up t = u) ->
-  (forall t, In t (w_timers w) -> t_up t = u ->
-     t_group t = g /\ forall m, m <> c -> m < w_n w -> c_group (w_cl w m) = Some g -> In m (t_cs t)) ->
+  (forall t, In t (w_timers w) -> t_up t = u -> t_group t = g) ->
   (replace <> 0 -> lookup replace (c_up (w_cl w c)) <> None /\ replace <> uo_id (w_up w u)) ->
   seg c w (offer_tail c id replace u s w).
 Proof.
@@ -313,10 +308,7 @@ Proof.
     + rewrite <- D2, Hdr. symmetry. exact R3.
     + rewrite <- D2, Hdr. apply (inv_idnz _ I). exact R1.
     + rewrite Hown. auto.
-    + destruct (Htall t H H0) as [_ X]. apply X; auto.
-      * eapply Hrange; eauto.
-      * rewrite D3, Hdr. congruence.
-    + destruct (Htall t H H0) as [X _]. rewrite G, D3, Hdr, X. congruence.
+    + intros t H H0. rewrite G, D3, Hdr, (Htall t H H0). congruence.
   - intros x Hx Hc. destruct HE as [[_ H] _].
     destruct (Nat.eqb_spec replace 0) as [e|n].
     + unfold offer_tail. rewrite e. simpl.
@@ -362,16 +354,15 @@ Proof.
         + unfold w1, new_up_conn, new_timer. simpl. rewrite Nat.eqb_refl. reflexivity.
         + unfold w1, new_up_conn, new_timer. simpl. rewrite Nat.eqb_refl. reflexivity.
         + rewrite G1. exact Hg.
-        + exists (mkTimer (w_nup w) g (others w g c)). split; [|reflexivity].
+        + exists (mkTimer (w_nup w) g). split; [|reflexivity].
           unfold w1, new_up_conn, new_timer. simpl. apply in_app_iff. right. left. reflexivity.
         + intros t Ht Htu.
-          assert (Hcase : In t (w_timers w) \/ t = mkTimer (w_nup w) g (others w g c)).
+          assert (Hcase : In t (w_timers w) \/ t = mkTimer (w_nup w) g).
           { unfold w1, new_up_conn, new_timer in Ht. simpl in Ht. apply in_app_iff in Ht.
             destruct Ht as [X|[X|[]]]; auto. }
           destruct Hcase as [Hold|Hnew].
           * destruct (inv_timers _ I t Hold) as [T1 _]. lia.
-          * subst t. cbn [t_up t_group t_cs]. split; [reflexivity|]. intros m Hm Hlt Hgm. apply in_others.
-            rewrite G1 in Hgm. repeat split; auto.
+          * subst t. reflexivity.
         + intro Hr. destruct (Hrep Hr) as [_ H2].
           assert (E : c_up (w_cl w1 c) = c_up (w_cl w c) ++ [(id, w_nup w)]).
           { unfold w1, new_up_conn, new_timer. simpl. rewrite Nat.eqb_refl. reflexivity. }
@@ -516,3 +507,220 @@ Qed.
 
 Lemma in_range_init : forall n, in_range (init n).
 Proof. intros n m g E. simpl in E. discriminate. Qed.
+
+(* ---- KInv is an invariant *)
+
+Lemma killer2_mono : forall w w' m id,
+  c_group (w_cl w' m) = c_group (w_cl w m) -> w_nup w <= w_nup w' ->
+  (forall x, x < w_nup w -> uo_replace (w_up w x) <> 0 ->
+     uo_replace (w_up w' x) = uo_replace (w_up w x) /\ uo_pushed (w_up w' x) = uo_pushed (w_up w x) /\
+     uo_owner (w_up w' x) = uo_owner (w_up w x)) ->
+  (forall t, In t (w_timers w) -> In t (w_timers w')) ->
+  (forall t, In t (w_timers w') -> In t (w_timers w) \/ w_nup w <= t_up t) ->
+  killer2 w m id -> killer2 w' m id.
+Proof.
+  intros w w' m id Hg Hn Hh Ht1 Ht2 [x [Hx [Hr [Hnz [Hp [Ho [[t [Hti Htu]] Hall]]]]]]].
+  assert (Hrn : uo_replace (w_up w x) <> 0) by congruence.
+  destruct (Hh x Hx Hrn) as [E1 [E2 E3]].
+  exists x. repeat split; try congruence; try lia.
+  - exists t. auto.
+  - intros t0 H H0. destruct (Ht2 t0 H) as [Hold|Hnew]; [|lia]. rewrite Hg. apply (Hall t0 Hold H0).
+Qed.
+
+Lemma evo_heap_clause : forall c w w', evo c None w w' ->
+  w_nup w <= w_nup w' /\
+  (forall x, x < w_nup w -> uo_replace (w_up w x) <> 0 ->
+     uo_replace (w_up w' x) = uo_replace (w_up w x) /\ uo_pushed (w_up w' x) = uo_pushed (w_up w x) /\
+     uo_owner (w_up w' x) = uo_owner (w_up w x)) /\
+  (forall t, In t (w_timers w) -> In t (w_timers w')) /\
+  (forall t, In t (w_timers w') -> In t (w_timers w) \/ w_nup w <= t_up t).
+Proof.
+  intros c w w' [[Hn Hh] [[l [Ht Hnew]] _]]. split; [exact Hn|]. split; [|split].
+  - intros x Hx _. destruct (Hh x Hx ltac:(discriminate)) as [_ [A [_ [_ [B [C _]]]]]]. auto.
+  - intros t Hin. rewrite Ht. apply in_app_iff. left. exact Hin.
+  - intros t Hin. rewrite Ht in Hin. apply in_app_iff in Hin. destruct Hin as [X|X]; [left; exact X|right; auto].
+Qed.
+
+Lemma in_get_down_some : forall d l, In d l -> get_down (d_id d) l <> None.
+Proof.
+  induction l as [|x r IH]; simpl; [tauto|]. intros [H|H].
+  - subst. rewrite Nat.eqb_refl. discriminate.
+  - destruct (Nat.eqb (d_id x) (d_id d)); [discriminate|apply IH; exact H].
+Qed.
+
+Lemma in_remove_nth_other : forall {A} i (l : list A) t t',
+  nth_error l i = Some t -> In t' l -> t' <> t -> In t' (remove_nth i l).
+Proof.
+  induction i; destruct l; simpl; intros t t' Hn Hin Hne; try discriminate.
+  - inversion Hn. subst. destruct Hin; [congruence|assumption].
+  - destruct Hin as [H|H]; [left; exact H|right; eapply IHi; eauto].
+Qed.
+
+Lemma step_noop : forall w o c, actor o = Some c ->
+  Nat.ltb c (w_n w) && negb (c_dead (w_cl w c)) = false -> step w o = w.
+Proof.
+  intros w o c Ha E. destruct o as [c' msg|c'|c'|i|u k]; simpl in Ha; inversion Ha; subst c'; simpl; rewrite E; reflexivity.
+Qed.
+
+Theorem KInv_step : forall w o, Inv w -> in_range w -> ok_op w o -> KInv w -> KInv (step w o).
+Proof.
+  intros w o I Hrange Hok K m d Hlive' Hin' Hc'.
+  pose proof (Inv_step w o I Hok) as I'.
+  destruct (actor o) as [c|] eqn:Ha.
+  - destruct (Nat.eqb_spec m c) as [e|n].
+    + (* the actor itself *)
+      subst c.
+      destruct (Nat.ltb m (w_n w) && negb (c_dead (w_cl w m))) eqn:Eg.
+      2:{ rewrite (step_noop w o m Ha Eg) in *. apply K; auto. }
+      apply andb_prop in Eg. destruct Eg as [E1 E2]. apply Nat.ltb_lt in E1. apply negb_true_iff in E2.
+      pose proof (step_evo w o m I Hok Ha) as HE.
+      destruct (evo_heap_clause _ _ _ HE) as [Hn [Hh [Ht1 Ht2]]].
+      destruct (inv_downs _ I' m d Hin') as [D1' [D2' [D3' D4']]].
+      (* an object that the actor's own step closed is the actor's *)
+      assert (Hnotclosed : forall x, x < w_nup w -> uo_owner (w_up (step w o) x) <> m ->
+                uo_closed (w_up (step w o) x) = true -> uo_closed (w_up w x) = true).
+      { intros x Hx Ho Hcx. destruct HE as [[_ H] _].
+        destruct (H x Hx ltac:(discriminate)) as [_ [Y [_ [_ [_ [_ [_ [X|[X [_ Z]]]]]]]]]]; congruence. }
+      destruct o as [c' msg|c'|c'|i|u k]; simpl in Ha; inversion Ha; subst c'.
+      * (* its message *)
+        destruct (msg_own w m msg I Hlive') as [[l Hq] [Hsub Hg]].
+        destruct (Hsub d Hin') as [d0 [Hin0 [Hid0 Hr0]]].
+        assert (Hg' : c_group (w_cl (step w (OpMsg m msg)) m) = c_group (w_cl w m)).
+        { apply Hg. intro X. rewrite X in Hin'. destruct Hin'. }
+        destruct (inv_downs _ I m d0 Hin0) as [D1 [D2 [D3 D4]]].
+        assert (Hc0 : uo_closed (w_up w (d_remote d0)) = true).
+        { apply Hnotclosed; auto; rewrite Hr0; auto. }
+        rewrite <- Hid0. destruct (K m d0 E2 Hin0 Hc0) as [K1|K2].
+        -- left. destruct K1 as [a [g [Ha1 [Hg1 Hk]]]]. exists a, g. repeat split; auto.
+           ++ rewrite Hq. apply in_app_iff. left. exact Ha1.
+           ++ congruence.
+        -- right. eapply killer2_mono; eauto.
+      * (* its queued action *)
+        destruct (c_queue (w_cl w m)) as [|a q] eqn:Eq.
+        { assert (E : step w (OpPump m) = w).
+          { simpl. rewrite Eq. destruct (Nat.ltb m (w_n w) && negb (c_dead (w_cl w m))); reflexivity. }
+          rewrite E in *. apply K; auto. }
+        destruct (pump_own w m a q I Eq E1 E2 Hlive') as [[l Hq] [Hg [Hfrom Hkills]]].
+        assert (Hc0 : forall x, x < w_nup w -> x = d_remote d -> uo_closed (w_up w x) = true).
+        { intros x Hx ->. apply Hnotclosed; auto. }
+        destruct (Hfrom d Hin') as [[d0 [Hin0 [Hid0 Hr0]]]|[Hlt Hopen]].
+        2:{ rewrite (Hc0 _ Hlt eq_refl) in Hopen. discriminate. }
+        destruct (inv_downs _ I m d0 Hin0) as [D1 [D2 [D3 D4]]].
+        assert (Hc1 : uo_closed (w_up w (d_remote d0)) = true) by (apply Hc0; auto).
+        rewrite <- Hid0. destruct (K m d0 E2 Hin0 Hc1) as [K1|K2].
+        -- left. destruct K1 as [a' [g [Ha1 [Hg1 Hk]]]]. rewrite Eq in Ha1. destruct Ha1 as [<-|Ha1].
+           ++ exfalso. assert (Hnz : d_id d0 <> 0) by (rewrite <- D2; apply (inv_idnz _ I); exact D1).
+              specialize (Hkills g (d_id d0) Hnz Hk Hg1). rewrite Hid0 in Hkills.
+              apply (in_get_down_some d _ Hin'). exact Hkills.
+           ++ exists a', g. repeat split; auto; [|congruence].
+              rewrite Hq. apply in_app_iff. left. exact Ha1.
+        -- right. eapply killer2_mono; eauto.
+      * (* the connection ends *)
+        exfalso. simpl in Hlive'.
+        assert (X : Nat.ltb m (w_n w) && negb (c_dead (w_cl w m)) = true).
+        { apply andb_true_intro. split; [apply Nat.ltb_lt; exact E1|rewrite E2; reflexivity]. }
+        rewrite X in Hlive'. rewrite error_close_dead in Hlive'. discriminate.
+    + (* another client acts *)
+      assert (P : passive m w (step w o)) by (apply step_passive; congruence).
+      destruct P as [Hcore [l Hq]].
+      destruct (core_fields _ _ Hcore) as [G [_ [_ [_ [_ [_ [D [_ Dd]]]]]]]].
+      rewrite D in Hin'. rewrite Dd in Hlive'.
+      destruct (step_seg w o c I Hrange Hok Ha) as [KM [_ [Nf _]]].
+      destruct (inv_downs _ I m d Hin') as [D1 _].
+      destruct (uo_closed (w_up w (d_remote d))) eqn:Hc.
+      * eapply killer_mono; [apply KM; exact n|]. apply K; auto.
+      * eapply Nf; eauto.
+  - (* a delayed push fires, or OnTrack *)
+    assert (P : passive m w (step w o)) by (apply step_passive; congruence).
+    destruct P as [Hcore [l Hq]].
+    destruct (core_fields _ _ Hcore) as [G [_ [_ [_ [_ [_ [D [_ Dd]]]]]]]].
+    rewrite D in Hin'. rewrite Dd in Hlive'.
+    destruct o as [c' msg|c'|c'|i|u k]; simpl in Ha; try discriminate.
+    + (* timer *)
+      simpl in *. destruct (nth_error (w_timers w) i) as [t|] eqn:Et; [|apply K; auto].
+      assert (Hti : In t (w_timers w)) by (eapply nth_error_In; eauto).
+      assert (Hcl : uo_closed (w_up w (d_remote d)) = true).
+      { revert Hc'. unfold fire_timer. simpl. destruct (uo_pushed (w_up w (t_up t))); [auto|].
+        autorewrite with sub. simpl. destruct (Nat.eqb (d_remote d) (t_up t)); simpl; auto. }
+      destruct (K m d Hlive' Hin' Hcl) as [K1|K2].
+      * left. destruct K1 as [a [g [Ha1 [Hg1 Hk]]]]. exists a, g. split; [|split; [congruence|exact Hk]].
+        rewrite Hq. apply in_app_iff. left. exact Ha1.
+      * destruct K2 as [x [Hx [Hr [Hnz [Hp [Ho [[t' [Hti' Htu']] Hall]]]]]]].
+        destruct (Nat.eqb_spec (t_up t) x) as [e|ne].
+        -- (* the delayed push of the replacing stream fires: the push is the killer *)
+           left. pose proof (Hall t Hti e) as Hgm.
+           destruct (inv_timers _ I t Hti) as [Tlt Tg].
+           exists (APush (t_group t) (uo_id (w_up w x)) (Some x) (uo_tracks (w_up w x)) (d_id d)), (t_group t).
+           split; [|split].
+           ++ unfold fire_timer. simpl. rewrite e, Hp. apply in_enq_all_queue. right. split.
+              ** rewrite Hr. reflexivity.
+              ** apply in_others. simpl. repeat split; auto. eapply Hrange; eauto.
+           ++ congruence.
+           ++ exists (uo_id (w_up w x)), (Some x), (uo_tracks (w_up w x)), (d_id d). split; [reflexivity|right; reflexivity].
+        -- right. exists x.
+           assert (HU : w_up (fire_timer t (set_timers (remove_nth i (w_timers w)) w)) x = w_up w x).
+           { unfold fire_timer. simpl. destruct (uo_pushed (w_up w (t_up t))); [reflexivity|].
+             autorewrite with sub. simpl. destruct (Nat.eqb_spec x (t_up t)); [congruence|reflexivity]. }
+           assert (HT : w_timers (fire_timer t (set_timers (remove_nth i (w_timers w)) w)) = remove_nth i (w_timers w)).
+           { unfold fire_timer. simpl. destruct (uo_pushed (w_up w (t_up t))); [reflexivity|].
+             autorewrite with sub. reflexivity. }
+           assert (HN : w_nup (fire_timer t (set_timers (remove_nth i (w_timers w)) w)) = w_nup w).
+           { unfold fire_timer. simpl. destruct (uo_pushed (w_up w (t_up t))); [reflexivity|].
+             autorewrite with sub. reflexivity. }
+           rewrite HU, HT, HN. repeat split; auto.
+           ++ exists t'. split; [|exact Htu']. eapply in_remove_nth_other; eauto. congruence.
+           ++ intros t0 H H0. apply in_remove_nth in H. rewrite G. apply (Hall t0 H H0).
+    + (* OnTrack *)
+      simpl in *.
+      destruct (Nat.ltb u (w_nup w) && negb (uo_closed (w_up w u))) eqn:Eg; [|apply K; auto].
+      apply andb_prop in Eg. destruct Eg as [E1 E2]. apply Nat.ltb_lt in E1. apply negb_true_iff in E2.
+      destruct (inv_alive _ I u E1 E2) as [_ Hgo].
+      rewrite Hgo in *.
+      set (g := uo_group (w_up w u)) in *.
+      assert (Hcl : uo_closed (w_up w (d_remote d)) = true).
+      { revert Hc'. unfold new_timer. simpl. destruct (Nat.eqb (d_remote d) u); simpl; auto. }
+      destruct (K m d Hlive' Hin' Hcl) as [K1|K2].
+      * left. destruct K1 as [a [g0 [Ha1 [Hg1 Hk]]]]. exists a, g0. split; [|split; [congruence|exact Hk]].
+        rewrite Hq. apply in_app_iff. left. exact Ha1.
+      * right. destruct K2 as [x [Hx [Hr [Hnz [Hp [Ho [[t' [Hti' Htu']] Hall]]]]]]].
+        exists x. unfold new_timer. simpl.
+        destruct (Nat.eqb_spec x u) as [e|ne]; simpl.
+        -- rewrite e in *. clear e. repeat split; auto.
+           ++ exists t'. split; [apply in_app_iff; left; exact Hti'|exact Htu'].
+           ++ intros t H H0. apply in_app_iff in H. destruct H as [H|[H|[]]]; [apply (Hall t H H0)|].
+              subst t. simpl. pose proof (Hall t' Hti' Htu') as Hgm.
+              destruct (inv_timers _ I t' Hti') as [_ Tg]. rewrite Htu' in Tg. rewrite Hgm, Tg. reflexivity.
+        -- repeat split; auto.
+           ++ exists t'. split; [apply in_app_iff; left; exact Hti'|exact Htu'].
+           ++ intros t H H0. apply in_app_iff in H. destruct H as [H|[H|[]]]; [apply (Hall t H H0)|].
+              subst t. simpl in H0. congruence.
+Qed.
+
+Lemma KInv_init : forall n, KInv (init n).
+Proof. intros n m d _ Hin. simpl in Hin. destruct Hin. Qed.
+
+(* at quiescence nothing is pending: no stale down stream is left *)
+Lemma quiescent_spec : forall w, quiescentb w = true ->
+  w_timers w = [] /\ forall m, m < w_n w -> c_dead (w_cl w m) = false -> c_queue (w_cl w m) = [].
+Proof.
+  intros w H. unfold quiescentb in H. apply andb_prop in H. destruct H as [H1 H2].
+  split; [destruct (w_timers w); [reflexivity|discriminate]|].
+  intros m Hm Hd. rewrite forallb_forall in H1. specialize (H1 m). rewrite Hd in H1. simpl in H1.
+  destruct (c_queue (w_cl w m)); [reflexivity|]. exfalso.
+  assert (X : In m (seq 0 (w_n w))) by (apply in_seq; lia). specialize (H1 X). discriminate.
+Qed.
+
+Theorem teardown_quiescent : forall w,
+  Inv w -> in_range w -> KInv w -> quiescentb w = true ->
+  forall m d, c_dead (w_cl w m) = false -> In d (c_down (w_cl w m)) ->
+              uo_closed (w_up w (d_remote d)) = false.
+Proof.
+  intros w I Hrange K Hq m d Hlive Hin.
+  destruct (quiescent_spec w Hq) as [Ht Hqueue].
+  destruct (uo_closed (w_up w (d_remote d))) eqn:Hc; [|reflexivity]. exfalso.
+  destruct (inv_downs _ I m d Hin) as [_ [_ [Hg _]]].
+  assert (Hm : m < w_n w) by (eapply Hrange; eauto).
+  destruct (K m d Hlive Hin Hc) as [[a [g [Ha _]]]|[x [_ [_ [_ [_ [_ [[t [Hti _]] _]]]]]]]].
+  - rewrite (Hqueue m Hm Hlive) in Ha. destruct Ha.
+  - rewrite Ht in Hti. destruct Hti.
+Qed.
